@@ -147,6 +147,7 @@ ObsTablesMatch(obs, T) ==
   /\ \A i \in 1..Len(obs.tables) : ObsTableMatches(obs.tables[i], T[obs.tables[i].name])
 
 ObsMatches(obs, db) ==
+  /\ "tables" \in DOMAIN obs          \* an open that failed or panicked shows nothing
   /\ ObsTablesMatch(obs, db.t)
   /\ Range(obs.psp) = DOMAIN db.psp
   /\ Len(obs.psp) = Cardinality(DOMAIN db.psp)
@@ -628,9 +629,12 @@ Crash(obs) ==
   /\ latch' = "ok" /\ inflight' = <<>>
   /\ UNCHANGED nextOrd
 
-\* a hypothetical crash (on a copy of the storage): the run itself continues unchanged
-CrashProbe(obs) ==
-  /\ CrashAtomic(obs)
+\* a hypothetical crash (on a copy of the storage): the run itself continues unchanged.
+\* p.obs is what the reopened copy shows; p.integ the result of check_integrity() on it and p.same
+\* whether the contents were unchanged by that check (C11: a recovered database is healthy)
+CrashProbe(p) ==
+  /\ CrashAtomic(p.obs)
+  /\ "integ" \in DOMAIN p => (p.integ = Ok(TRUE) /\ p.same)
   /\ UNCHANGED kvVars
 
 \* full dump through a view: must be exactly that view
